@@ -1,7 +1,8 @@
 (* C14ng — pcapng: the reader (NgModel: repaired pcapgo/ngread*.go) returns what the writer
    (pcapgo/ngwrite*.go) was given; a truncated file gives a true prefix.
-   Property theorems only; proofs in Proofs/NgExec.v and Proofs/NgRoundtrip.v. *)
-From GP Require Import Base NgModel NgIoProofs NgExec NgRoundtrip.
+   Property theorems only; proofs in Proofs/NgExec.v, NgRoundtrip.v (one packet block), NgFile.v (whole
+   files), NgPrefix.v and NgPrefixFile.v (truncation). *)
+From GP Require Import Base NgModel NgIoProofs NgExec NgRoundtrip NgFile NgPrefix NgPrefixFile.
 Open Scope Z_scope.
 
 Definition new_class (r : Z * list pkt * Z * rst) : Z := fst (fst (fst r)).
@@ -19,11 +20,7 @@ Definition expected_pkt (links : list Z) (op : wop) : list pkt :=
 Definition links_of (i0 : wiface) (ops : list wop) : list Z :=
   wi_link i0 :: flat_map (fun op => match op with WAddIf i => [wi_link i] | _ => [] end) ops.
 (* preconditions: exactly what the writer enforces, plus what the format can represent *)
-Definition str_ok (l : list Z) : Prop := zlen l < 65536.
-Definition wif_ok (i : wiface) : Prop :=
-  str_ok (wi_name i) /\ str_ok (wi_comment i) /\ str_ok (wi_descr i) /\ zlen (wi_filter i) < 65535 /\ str_ok (wi_os i)
-  /\ 0 <= wi_link i < 65536 /\ 0 <= wi_snap i < 4294967296 /\ wi_tsoff i = 0.
-Definition sec_ok (s : secinfo) : Prop := str_ok (sc_hw s) /\ str_ok (sc_os s) /\ str_ok (sc_app s) /\ str_ok (sc_comment s).
+(* str_ok, wif_ok, sec_ok: see Proofs/NgFile.v *)
 
 (* C14_ng_roundtrip, full strength: every accepted script of interface additions and packets is
    read back (all link types wanted) as exactly its packets, then io.EOF *)
@@ -92,6 +89,83 @@ Theorem C14_ng_exec_is_session : forall ro d,
 Proof. exact session_flat_d. Qed.
 Print Assumptions C14_ng_exec_is_session.
 
+
+(* ------------------------------------------------------------------ proved at file level *)
+(* C14_ng_roundtrip for the sub-language {NewNgWriterInterface, AddInterface, WritePacketWithOptions}
+   (any section description, any number of interfaces of any link types and snap lengths, any
+   NgPacketOptions), all link types wanted, copying or zero-copy call.  [ops_ok] (Proofs/NgFile.v) is
+   exactly: strings and option values shorter than 65536 bytes, if_tsoffset 0, and for each packet
+   what WritePacketWithOptions enforces (interface exists, caplen = |data| <= len) plus timestamp in
+   [0, 2^63) ns, caplen <= snap length of its interface (when not 0), sizes below 2^32.
+   Missing from the full statement: WriteInterfaceStats and WriteDecryptionSecretsBlock blocks in
+   the script; WantMixedLinkType = false (packets of other link types skipped). *)
+Theorem C14_ng_roundtrip_file_partial : forall ro sec i0 ops,
+  ro_mixed ro = true -> sec_ok sec -> ops_ok [] (WAddIf i0 :: ops) -> zlen ops < 4294967290 ->
+  let r := write_cut_read ro sec i0 ops (length (write_file sec i0 ops)) in
+  new_class r = 0 /\ end_class r = 1 /\ packets r = exp_pkts [] (WAddIf i0 :: ops).
+Proof. exact roundtrip_file. Qed.
+Print Assumptions C14_ng_roundtrip_file_partial.
+
+(* under ops_ok the writer accepts every call and the file is the section header followed by the blocks *)
+Theorem C14_ng_writer_accepts : forall sec i0 ops, ops_ok [] (WAddIf i0 :: ops) -> zlen ops < 4294967290 ->
+  write_file sec i0 ops = enc_shb sec ++ enc_ops (WAddIf i0 :: ops)
+  /\ Forall (fun r => snd r = true) (write_blocks sec i0 ops).
+Proof. exact write_file_shape. Qed.
+Print Assumptions C14_ng_writer_accepts.
+
+(* C14_ng_prefix for the same sub-language and every cut position behind the section header: the
+   script is split anywhere as pre ++ nxt :: post and the file is cut k bytes into the block of
+   nxt (k = 0: at the block boundary).  Exactly the packets of pre come back, then io.EOF at the
+   boundary and io.ErrUnexpectedEOF inside the block.  The cut after the last block is
+   C14_ng_roundtrip_file_partial.  The reader runs with any fuel at least that of the whole file (the model's
+   fuel is a proof device; C15_ng_terminates shows the fuel of the cut input is never exhausted
+   either, but the equality of the two runs is not proved).  Cuts inside the section header block: C14_ng_prefix_header_partial.  Missing: ISB/DSB
+   blocks, WantMixedLinkType = false, and the identity of the run with the cut input's own fuel. *)
+Theorem C14_ng_prefix_file_partial : forall ro sec i0 ops pre nxt post k,
+  ro_mixed ro = true -> sec_ok sec -> ops_ok [] (WAddIf i0 :: ops) -> zlen ops < 4294967290 ->
+  WAddIf i0 :: ops = pre ++ nxt :: post -> (k < length (enc_op nxt))%nat ->
+  let file := write_file sec i0 ops in
+  forall F, (fuel_for (zlen file) <= F)%nat ->
+  let cut := (length (enc_shb sec) + length (enc_ops pre) + k)%nat in
+  let r := fst (run_d (session ro F) (firstn cut file)) in
+  new_class r = 0 /\ packets r = exp_pkts [] pre /\ end_class r = (if (k =? 0)%nat then 1 else 2).
+Proof. exact prefix_file. Qed.
+Print Assumptions C14_ng_prefix_file_partial.
+
+(* cuts inside the section header block: NewNgReader fails with io.EOF for the empty file and
+   io.ErrUnexpectedEOF otherwise, no packet *)
+Theorem C14_ng_prefix_header_partial : forall ro sec i0 ops k,
+  ro_mixed ro = true -> sec_ok sec -> ops_ok [] (WAddIf i0 :: ops) -> zlen ops < 4294967290 ->
+  (k < length (enc_shb sec))%nat ->
+  forall F, (6 < F)%nat ->
+  let r := fst (run_d (session ro F) (firstn k (write_file sec i0 ops))) in
+  new_class r = (if (k =? 0)%nat then 1 else 2) /\ packets r = [] /\ end_class r = (if (k =? 0)%nat then 1 else 2).
+Proof. exact prefix_file_shb. Qed.
+Print Assumptions C14_ng_prefix_header_partial.
+
+(* the two block lemmas behind it: a block cut short ends the read with io.ErrUnexpectedEOF *)
+Theorem C14_ng_cut_packet_block : forall ro F g s ifid ts caplen len data o k,
+  ro_mixed ro = true -> r_big s = false -> (length (popts_to_options o) + 2 < F)%nat ->
+  wf_packet (r_ifaces s) ifid ts caplen len data o ->
+  (0 < k < length (enc_epb ifid ts caplen len data o))%nat ->
+  exists s', exec (readPacketG ro F (S g)) s (firstn k (enc_epb ifid ts caplen len data o)) = ((s', Err 2), []).
+Proof. exact trunc_epb. Qed.
+Print Assumptions C14_ng_cut_packet_block.
+Theorem C14_ng_cut_interface_block : forall ro F g s w k,
+  r_big s = false -> wif_ok w -> (length (idb_options w) < F)%nat -> (0 < k < length (enc_idb w))%nat ->
+  exists s', exec (readPacketG ro F (S g)) s (firstn k (enc_idb w)) = ((s', Err 2), []).
+Proof. exact trunc_idb. Qed.
+Print Assumptions C14_ng_cut_interface_block.
+
+(* the generic truncation lemma: a program all of whose end-of-stream continuations return
+   io.ErrUnexpectedEOF, on a prefix of its input, either does so or behaves as on the whole input *)
+Theorem C14_ng_truncation : forall (A : Type) (p : io (rst * outcome A)), eof2 p -> forall l k, (k <= length l)%nat ->
+  (exists s, run_d p (firstn k l) = ((s, Err 2), []))
+  \/ (exists c, (c <= k)%nat /\ snd (run_d p l) = skipn c l
+                /\ run_d p (firstn k l) = (fst (run_d p l), firstn (k - c) (skipn c l))).
+Proof. exact @trunc. Qed.
+Print Assumptions C14_ng_truncation.
+
 (* ------------------------------------------------------------------ refuted (known finding) *)
 (* with a non-zero TimestampOffset the packet comes back shifted: the writer stores the absolute
    time and also if_tsoffset, the reader adds the offset again (ng-tsoffset-added-twice) *)
@@ -157,4 +231,23 @@ Proof.
     split; [exact I|]. split; [lia|]. split; [exact I|constructor]. }
   split; [vm_compute; reflexivity|]. split; [lia|].
   eexists. split; [reflexivity|]. split; [unfold iface_ns; cbn; auto|]. split; [left; reflexivity|vm_compute; reflexivity].
+Qed.
+
+(* non-vacuity of ops_ok *)
+Example C14_ng_ops_ok_nonvacuous :
+  ops_ok [] [WAddIf (mkWif [101] [] [] [116] [] 1 9 0 96);
+             WPacket 0 5000000000007 3 5 [1;2;3] (mkPopts [[97]; []] (Some (1, 8, 64, 131072)) [(3, [1])] None (Some 9) None [])]
+  /\ sec_ok sample_sec.
+Proof.
+  split; [|unfold sec_ok, str_ok, sample_sec; cbn; unfold zlen; cbn; lia].
+  cbn [ops_ok app map]. split; [unfold wif_ok, str_ok; cbn; unfold zlen; cbn; lia|]. split; [|exact I].
+  unfold wf_packet. split; [lia|]. split; [reflexivity|]. split; [lia|]. split; [lia|].
+  split.
+  { unfold wf_popts; cbn [po_comments po_flags po_hashes po_drop po_pid po_queue po_verdicts].
+    split; [repeat constructor; vm_compute; reflexivity|].
+    split; [unfold flags_wf; split; [lia|]; split; [exists 2; lia|]; split; [exists 2; lia|exists 2; lia]|].
+    split; [repeat constructor; vm_compute; reflexivity|].
+    split; [exact I|]. split; [lia|]. split; [exact I|constructor]. }
+  split; [vm_compute; reflexivity|]. split; [lia|].
+  eexists. split; [reflexivity|]. split; [unfold iface_ns; cbn; auto|]. split; [right; vm_compute; congruence|vm_compute; reflexivity].
 Qed.
